@@ -808,6 +808,10 @@ class Engine:
                     x == y or (x[0] == 'f' and y[0] == 'f' and x[1] == y[1] and ('?' in (x[2], y[2]) or x[2] == y[2])) for x, y in zip(a.path, b.path)):
                 # the same place, reached once with and once without a type annotation on a field step
                 return Ref(a.cell, tuple(y if (x[0] == 'f' and x[2] == '?') else x for x, y in zip(a.path, b.path)))
+            if a.cell == b.cell and len(a.path) == len(b.path) and all(
+                    x == y or (x[0] == 'i' and y[0] == 'i') for x, y in zip(a.path, b.path)):
+                # the same container, different elements: one reference with a symbolic index
+                return Ref(a.cell, tuple(x if x == y else ('i', If(c, zint(x[1]), zint(y[1]))) for x, y in zip(a.path, b.path)))
             return Opaque('merge of distinct references')
         if isinstance(a, Seq) and isinstance(b, Seq) and len(a.elems) != len(b.elems) and a.prefix and b.prefix:
             # different capacities (e.g. after a push on one path): positions beyond the shorter
